@@ -479,12 +479,178 @@ reg("C17", custom=check_c17, mc=[("var", None, None)], title="Prefix variations"
               "validation of rows recorded from lru_variations / expand_prefix / automatic creation")
 
 # ---------------------------------------------------------------------------------------
+# C18: torn write histories (fault enumeration on the real code + TLC on the rows)
+# ---------------------------------------------------------------------------------------
+def check_c18(pid, cfg, tier, seed, work, t0):
+    import crash
+    ti = 0 if tier == "quick" else 1
+    known = load_known()
+    mcs = [run_mc("crash", work, level=(4, 5)[ti])]
+    if not mcs[0]["ok"]:
+        raise Machinery("TLC reports an error in MC_crash:\n" + mcs[0].get("tail", ""))
+    nh, steps = ((10, 7), (80, 10))[ti]
+    prof = dict(BASE_PROFILE)
+    prof.update({"nlrus": 8, "long": 0.8, "raw": 0.1,
+                 "weights": {"Reopen": 0, "Clear": 0, "Paginate": 0, "PagLinks": 0, "AddLinks": 20,
+                             "IndexBatchCrawl": 14, "AddRule": 6, "CreateWe": 8}})
+    hists, rows = [], []
+    next_id = [0]
+    for h in range(nh):
+        d = gen.Driver(seed * 1000003 + h * 7919 + 41, prof, "file")
+        hist = crash.record_history(d, steps)
+        hists.append(hist)
+        rows += crash.enumerate_cuts(hist, h, next_id, files_every=(9, 5)[ti])
+        if impl.TIMEOUTS[0] >= 3:
+            break
+    extra_h = [{"pages": [l for l, _ in h["final"]["pages"]],
+                "links": [{"s": s, "t": t, "w": w} for s, t, w in h["final"]["outs"]]} for h in hists]
+    # validate in chunks; histories are shared through batch.extra.hists
+    viol, drift = [], []
+    states = [0, 0]
+    wall = 0.0
+    for c in range(0, len(rows), 1200):
+        part = rows[c:c + 1200]
+        v = validate_crash_rows(part, extra_h, os.path.join(work, "cr_%d" % c))
+        states[0] += v["states"][0]
+        states[1] += v["states"][1]
+        wall += v["wall"]
+        for row in part:
+            cl = [x for _, x in v["verdicts"][row["id"]]]
+            mine = [x for x in cl if x.startswith("C18.")]
+            if mine:
+                viol.append((row, mine))
+            elif any(x.startswith("bind.") for x in cl):
+                drift.append((row["id"], cl))
+    shown = 0
+    sig = set()
+    kn_hits = {}
+    real = []
+    for row, mine in viol:
+        k = None
+        for kf in known:
+            if kf.get("status") == "known" and kf["property"] == pid and all(m.startswith(kf["clause"]) for m in mine) \
+                    and kf.get("qfail_all") and row["qfail"] and all(any(x in qf for x in kf["qfail_all"]) for qf in row["qfail"]):
+                k = kf["id"]
+        if k:
+            kn_hits[k] = kn_hits.get(k, 0) + 1
+        else:
+            real.append((row, mine))
+    for row, mine in real:
+        key = (mine[0], row["outcome"], tuple(row["qfail"])[:2])
+        if key in sig and shown >= 5:
+            continue
+        sig.add(key)
+        h = hists[row["hist"] - 1]
+        body = {"property": pid, "kind": "crash", "def": h["def"], "rules": b2s(h["rules"]), "ops": b2s(h["ops"]),
+                "cut": row["k"], "partial_bytes": row["pbytes"], "missing_link_store": row["missing"],
+                "outcome": row["outcome"], "qfail": row["qfail"], "failing": mine,
+                "writes": [[w[0], w[1], w[2], b2s(w[3])] for w in h["writes"]], "ram_at": b2s(h["ram_at"])}
+        hh = hashlib.sha1(json.dumps(body, sort_keys=True).encode()).hexdigest()[:12]
+        os.makedirs(os.path.join(VERIF, "replays"), exist_ok=True)
+        path = os.path.join(VERIF, "replays", "%s-%s.json" % (pid, hh))
+        json.dump(body, open(path, "w"), indent=1, sort_keys=True)
+        print("VIOLATION property=%s replay=%s clause=%s cut=%d/%d outcome=%s qfail=%s"
+              % (pid, path, mine[0], row["k"], len(h["writes"]), row["outcome"], ",".join(row["qfail"])[:120]))
+        shown += 1
+        if shown >= 25:
+            break
+    if len(real) > shown:
+        print("... %d more violating cuts not listed" % (len(real) - shown))
+    for k, n in kn_hits.items():
+        print("KNOWN-FINDING: property=%s %s (seen at %d cuts this run)" % (pid, k, n))
+    if drift:
+        print("MODEL-DRIFT property=%s cuts=%d : refusal predicate or torn-file invariant differs from the model "
+              "while every C18 clause holds" % (pid, len(drift)))
+    opened = sum(1 for r in rows if r["outcome"] == "opened")
+    refused = sum(1 for r in rows if r["outcome"] == "refused")
+    cov = {"states": mcs[0]["distinct"], "transitions": mcs[0]["states"], "model_configs": mcs,
+           "traces_validated_against_impl": len(hists), "cuts_enumerated": len(rows),
+           "cuts_opened": opened, "cuts_refused": refused,
+           "cuts_with_decoded_files_checked_by_TLC": sum(1 for r in rows if r["hasFiles"]),
+           "trace_validation_tlc_states": states[1],
+           "evaluations": len(rows), "distinct_nontrivial": opened,
+           "rule": "every cut of the program-ordered raw write log of each recorded history: block granularity for all "
+                   "writes, byte offsets 1/mid/size-1 inside appended blocks, plus 'link store not created yet'; "
+                   "non-trivial = the real Traph reopened the cut (was not refused) and was interrogated",
+           "samples": [{"requests": [o["op"] for o in hists[0]["ops"]], "writes": len(hists[0]["writes"]),
+                        "cut": rows[len(rows) // 3]["k"], "outcome": rows[len(rows) // 3]["outcome"]}],
+           "model_drift_cuts": len(drift), "known_findings_hit": sorted(kn_hits), "exhaustive": False}
+    write_evidence(pid, tier, seed, cov, time.time() - t0, len(real),
+                   COMMON_ASSUMPTIONS + ["in-place block rewrites are atomic; the two files are cut at the same "
+                                         "program point; rules in force when the request started are re-supplied on reopen"],
+                   level="fault_enumeration" if False else "model_checking")
+    print("%s %s: model crash L%s %d states (every cut of every request); %d histories, %d cuts reopened by the real code "
+          "(%d opened, %d refused), rows validated by TLC in %.1fs; violations=%d known=%d drift=%d (%.1fs)"
+          % (pid, tier, mcs[0]["level"], mcs[0]["distinct"], len(hists), len(rows), opened, refused, wall,
+             len(real), len(kn_hits), len(drift), time.time() - t0))
+    return 1 if real else 0
+
+
+def validate_crash_rows(rows, hists, workdir):
+    from abstraction import StemTable
+    tab = StemTable()
+    tab.note(rows)
+    tab.note(hists)
+    stemtab = tab.finalize()
+    batch = {"stems": stemtab, "www": tab.rank[b"h:www|"], "traces": [],
+             "extra": {"rows": tab.conv(rows), "hists": tab.conv(hists)}}
+    os.makedirs(workdir, exist_ok=True)
+    bpath = os.path.join(workdir, "batch.json")
+    json.dump(batch, open(bpath, "w"))
+    src = os.path.join(runner.SPEC, "crashrows")
+    for name in os.listdir(src):
+        open(os.path.join(workdir, name), "w").write(open(os.path.join(src, name)).read())
+    rc, out, wall = runner.tlc(workdir, "MC_crashrows", cfg="MC_crashrows.cfg", env={"VERIF_BATCH": bpath},
+                               workers=os.environ.get("VERIF_TLC_WORKERS", "8"))
+    if "Model checking completed. No error has been found." not in out:
+        open(os.path.join(workdir, "tlc.out"), "w").write(out)
+        raise Machinery("TLC did not complete crash-row validation (rc=%s)\n%s" % (rc, out[-3000:]))
+    verdicts = {}
+    for v in runner.extract_verdicts(out):
+        verdicts[v[1]] = [(b[0], b[1]) for b in v[3]]
+    missing = [r["id"] for r in rows if r["id"] not in verdicts]
+    if missing:
+        raise Machinery("no verdict for crash rows %s" % missing[:10])
+    m = runner.STATS_RE.search(out)
+    return {"verdicts": verdicts, "states": (int(m.group(1)), int(m.group(2))) if m else (0, 0), "wall": wall}
+
+
+def replay_c18(body, work):
+    import crash
+    import tempfile
+    import shutil
+    writes = [(w[0], w[1], w[2], s2b(w[3]), 0) for w in body["writes"]]
+    raw_t, raw_l = crash.materialize(writes, body["cut"], body["partial_bytes"] or None)
+    folder = tempfile.mkdtemp(prefix="vt_c18_")
+    try:
+        open(os.path.join(folder, "lru_trie.dat"), "wb").write(raw_t)
+        if not body["missing_link_store"]:
+            open(os.path.join(folder, "link_store.dat"), "wb").write(raw_l)
+        ram = s2b(body["ram_at"])
+        default, rules = ram[-1]
+        res = crash.probe(folder, default, [tuple(x) for x in rules])
+    finally:
+        shutil.rmtree(folder, ignore_errors=True)
+    bad = res["outcome"] not in ("refused", "opened") or (res["outcome"] == "opened" and res["qfail"])
+    print("replay C18 cut=%d: outcome=%s qfail=%s" % (body["cut"], res["outcome"], res["qfail"]))
+    if bad:
+        print("VIOLATION property=C18 replay=- clause=%s" % ("C18.queries" if res["outcome"] == "opened" else "C18.refuse_or_open"))
+    return 1 if bad else 0
+
+
+reg("C18", custom=check_c18, mc=[("crash", 4, 5)], title="Torn write history", level="model_checking",
+    technique="TLA+ write-list model: TLC checks every cut of every request of all small histories (MC_crash); fault "
+              "enumeration replays every cut of real write logs into the real code, rows judged by TLC (CrashRows)")
+
+# ---------------------------------------------------------------------------------------
 # Replay
 # ---------------------------------------------------------------------------------------
 def replay(pid, path, work):
     body = json.load(open(path))
     if body.get("kind") == "variations":
         return replay_c17(body, work)
+    if body.get("kind") == "crash":
+        return replay_c18(body, work)
     cfg = P[body["property"]]
     hook = getattr(hooks, "hook_" + cfg["hook"]) if cfg["hook"] else None
     rules = [tuple(x) for x in s2b(body["rules"])]
